@@ -8,6 +8,8 @@ Object invariant of the filter (the three parallel lists F, M, X):
   SUBSET  every entry is an element of the history, in evaluation order:
           0 <= X[j] < Hlen, F[j] == Hf[X[j]], M[j] == Hm[X[j]], X strictly increasing
   BOUND   len F <= filter_size
+  NOMIX   fully defined entries and entries with a NaN never coexist (a fully defined newcomer evicts every NaN entry, a NaN
+          newcomer is only admitted among NaN entries): either every entry is fully defined or every entry has a NaN
   COVER   (as long as nothing was evicted, i.e. filter_size > Hlen) every fully defined evaluated point p is dominated
           by a fully defined retained entry q:  Hf[q'] <= Hf[p] and Hm[q'] <= Hm[p]
 """
@@ -63,6 +65,21 @@ def fd(f, m):
 def dom(fq, mq, fp, mp):
     """(fq, mq) is fully defined and dominates (fp, mp)."""
     return z3.And(fd(fq, mq), fq.r <= fp.r, mq.r <= mp.r)
+
+
+def hasnan(f, m):
+    return z3.Or(f.nan, m.nan)
+
+
+def nomix_at(F, M, clean, j):
+    """NOMIX at index j for the ghost flag `clean` (every entry fully defined) / not clean (every entry has a NaN)."""
+    f, m = F.at(j), M.at(j)
+    return z3.And(z3.Implies(clean, fd(f, m)), z3.Implies(z3.Not(clean), hasnan(f, m)))
+
+
+def nomix_all(F, M, clean, upto=None):
+    j = z3.Int("vcx_j")
+    return z3.ForAll([j], z3.Implies(z3.And(0 <= j, j < (F.len if upto is None else upto)), nomix_at(F, M, clean, j)), patterns=[F.nan[j]])
 
 
 def subset_inv(F, M, X, H, j):
@@ -125,7 +142,22 @@ class RemovalLoop(RangeLoop):
             cands = [g["w0"], Ln - 1] + ([g["w"], g["w"] - 1] if "w" in g else []) + list(L.c.witnesses)
             out.append(("cover", z3.Implies(g["cover_applies"],
                                             z3.Or(*[z3.And(0 <= w, w < Ln, dom(F.at(w), M.at(w), g["fp"], g["mp"])) for w in cands]))))
-        # entries above k that remain are not dominated by the newcomer in the sense of the removal rule
+        # NOMIX while the newcomer (last entry) evicts: the old entries keep their flag; a NaN newcomer was admitted among NaN entries
+        # only; a fully defined newcomer has already evicted every NaN entry above k
+        clean0 = g["clean0"]
+        new_fd, new_nan = fd(fv, mv), hasnan(fv, mv)
+        if mode == "assume":
+            jj = z3.Int("vcx_j")
+            out.append(("nomix_old", nomix_all(F, M, clean0, upto=Ln - 1)))
+            out.append(("nomix_nan_newcomer", z3.Implies(new_nan, z3.ForAll([jj], z3.Implies(z3.And(0 <= jj, jj < Ln - 1), hasnan(F.at(jj), M.at(jj))),
+                                                                            patterns=[F.nan[jj]]))))
+            out.append(("nomix_defined_newcomer", z3.Implies(new_fd, z3.ForAll([jj], z3.Implies(z3.And(k < jj, jj < Ln - 1), fd(F.at(jj), M.at(jj))),
+                                                                                patterns=[F.nan[jj]]))))
+        else:
+            j2 = z3.Int(L.c.fresh_name("vcx_any"))
+            out.append(("nomix_old", z3.Implies(z3.And(0 <= j2, j2 < Ln - 1), nomix_at(F, M, clean0, j2))))
+            out.append(("nomix_nan_newcomer", z3.Implies(z3.And(new_nan, 0 <= j2, j2 < Ln - 1), hasnan(F.at(j2), M.at(j2)))))
+            out.append(("nomix_defined_newcomer", z3.Implies(z3.And(new_fd, k < j2, j2 < Ln - 1), fd(F.at(j2), M.at(j2)))))
         return out
 
 
@@ -156,6 +188,9 @@ def mk_problem(c, m, callback_mode):
     c.assume(pb._filter_size.t >= 1)
     c.assume(z3.And(M.len == F.len, X.len == F.len, F.len <= pb._filter_size.t, F.len <= H.len))
     c.assume(subset_all(F, M, X, H))
+    clean0 = z3.Bool(c.fresh_name("filter_all_defined"))
+    c.assume(nomix_all(F, M, clean0))
+    c.ghost.setdefault("pbcall", {})["clean0"] = clean0
     # history lists
     sh = SB(z3.Bool(c.fresh_name("store_history")))
     c.named["store_history"] = sh
@@ -174,7 +209,8 @@ def mk_problem(c, m, callback_mode):
 
 class ProblemCall(Unit):
     name = "pbcall.problem_call"
-    props = ("C03", "C05", "C06", "C08", "C20", "C09", "C02")
+    props = ("C03", "C05", "C06", "C08", "C20", "C09", "C02", "C07")
+    optional_provides = {"nomix": "filter.nomix"}      # NOMIX is an optional invariant: required only if best_eval relies on it
     fmodel = "ORDER"
     functions = [("cobyqa.problem", "Problem.__call__")]
     replay = ("contracts.replays", "problem_call")
@@ -328,6 +364,10 @@ class ProblemCall(Unit):
         c.oblige("C03.problem_call.post.bound", Ln <= pb._filter_size.t, props=["C03"])
         j = z3.Int(c.fresh_name("vcx_any"))
         c.oblige("C03.problem_call.post.subset", z3.Implies(z3.And(0 <= j, j < Ln), subset_inv(F, M, X, H1, j)), props=["C03", "C02"])
+        i1, i2 = z3.Int(c.fresh_name("vcx_any")), z3.Int(c.fresh_name("vcx_any"))
+        c.oblige("C03.problem_call.post.nomix",
+                 z3.Implies(z3.And(0 <= i1, i1 < Ln, 0 <= i2, i2 < Ln), z3.Not(z3.And(fd(F.at(i1), M.at(i1)), hasnan(F.at(i2), M.at(i2))))),
+                 props=["C03", "C08", "C02", "C06", "C20", "C09", "C07"], note="a fully defined entry and an entry with a NaN coexist in the filter")
         cands = [w0, Ln - 1, w0 - 1] + ([g["w"], g["w"] - 1] if "w" in g else []) + list(c.witnesses)
         c.oblige("C03.problem_call.post.cover",
                  z3.Implies(cover_applies, z3.Or(*[z3.And(0 <= w, w < Ln, dom(F.at(w), M.at(w), fp, mp)) for w in cands])),
